@@ -139,4 +139,54 @@ theorem apiBuilt_elInv {e : Element} (h : Element.ApiBuilt e) : ElInv e := by
 theorem apiBuilt_seq_elInv {s : Sequence} (h : Sequence.ApiBuilt s) : Inner ElInv s :=
   apiBuilt_inner ElInv (fun _ _ h => h) (fun _ he => apiBuilt_elInv he) h
 
+/-! ### ... including edits of a stored element through `sequence.element(pos)` -/
+
+/-- the sequences the public API can build when stored elements may also be edited in place
+    through `sequence.element(pos).changeArg / changeDuration` (`Tools.modifyElement`): everything
+    `Sequence.ApiBuilt` has, closed under those two edits (accepted or rejected) -/
+inductive SeqBuiltE : Sequence → Prop
+  | empty : SeqBuiltE {}
+  | addElement (s : Sequence) (pos : Int) (e : Element) : SeqBuiltE s → Element.ApiBuilt e → SeqBuiltE (s.addElement pos e).st
+  | addSubSequence (s : Sequence) (pos : Int) (sub : Sequence) : SeqBuiltE s → SeqBuiltE sub → SeqBuiltE (s.addSubSequence pos sub).st
+  | setSpec (s : Sequence) (k : String) (v : Spec) : SeqBuiltE s → SeqBuiltE (s.setSpec k v)
+  | setFilter (s : Sequence) (ch : Chan) (kind : String) (order : Int) (isInt : Bool) (fc tau : Val) :
+      SeqBuiltE s → SeqBuiltE (s.setChannelFilterCompensation ch kind order isInt fc tau).st
+  | setSequencing (s : Sequence) (pos : Int) (f : SeqSet → SeqSet) : SeqBuiltE s → SeqBuiltE (s.setSequencing pos f).st
+  | copy (s : Sequence) : SeqBuiltE s → SeqBuiltE s.copy
+  | add (a b c : Sequence) : SeqBuiltE a → SeqBuiltE b → a.add b = .ok c → SeqBuiltE c
+  | elementChangeArg (s : Sequence) (pos : Int) (ch : Chan) (name : String) (arg value : Val) (all : Bool) :
+      SeqBuiltE s → SeqBuiltE (Tools.modifyElement s pos (fun e => e.changeArg ch name arg value all)).st
+  | elementChangeDuration (s : Sequence) (pos : Int) (ch : Chan) (name : String) (dur : Val) (all : Bool) :
+      SeqBuiltE s → SeqBuiltE (Tools.modifyElement s pos (fun e => e.changeDuration ch name dur all)).st
+
+/-- everything `Sequence.ApiBuilt` builds is in `SeqBuiltE` -/
+theorem SeqBuiltE.of_apiBuilt {s : Sequence} (h : Sequence.ApiBuilt s) : SeqBuiltE s := by
+  induction h with
+  | empty => exact .empty
+  | addElement s pos e _ he ih => exact .addElement s pos e ih he
+  | addSubSequence s pos sub _ _ ih ihsub => exact .addSubSequence s pos sub ih ihsub
+  | setSpec s k v _ ih => exact .setSpec s k v ih
+  | setFilter s ch kind order isInt fc tau _ ih => exact .setFilter s ch kind order isInt fc tau ih
+  | setSequencing s pos f _ ih => exact .setSequencing s pos f ih
+  | copy s _ ih => exact .copy s ih
+  | add a b c _ _ hadd iha ihb => exact .add a b c iha ihb hadd
+
+/-- **names stay canonical also under in-place edits of stored elements** -/
+theorem seqBuiltE_elInv {s : Sequence} (h : SeqBuiltE s) : Inner ElInv s := by
+  induction h with
+  | empty => exact inner_empty _
+  | addElement s pos e _ he ih => exact inner_addElement ElInv (fun _ _ h => h) ih pos e (apiBuilt_elInv he)
+  | addSubSequence s pos sub _ _ ih ihsub => exact inner_addSubSequence ElInv ih ihsub pos
+  | setSpec s k v _ ih => exact ih
+  | setFilter s ch kind order isInt fc tau _ ih => exact inner_setFilter ElInv ih ch kind order isInt fc tau
+  | setSequencing s pos f _ ih => exact inner_setSequencing ElInv ih pos f
+  | copy s _ ih => exact ih
+  | add a b c _ _ hadd iha ihb => exact inner_add ElInv iha ihb hadd
+  | elementChangeArg s pos ch name arg value all _ ih =>
+    exact inner_modifyElement ElInv ih pos _
+      (fun e he => elInv_withBP e ch _ (fun b hb => inv_changeArg hb name arg value all) he)
+  | elementChangeDuration s pos ch name dur all _ ih =>
+    exact inner_modifyElement ElInv ih pos _
+      (fun e he => elInv_withBP e ch _ (fun b hb => inv_changeDuration hb name dur all) he)
+
 end BB.G12
